@@ -27,7 +27,7 @@ Check ==
        /\ Report(p.a.log = p.b.log, "log", IF p.a.log = p.b.log THEN 0 ELSE FirstDiff(p.a.log, p.b.log))
        /\ Report(p.a.completed = p.b.completed /\ p.a.exc = p.b.exc, "outcome", 0)
        /\ \A r \in 1..Len(p.refusals) :
-             /\ Report(p.refusals[r].raised = "RuntimeError", "refusal-raises", r)
+             /\ Report(p.refusals[r].raised = p.refusals[r].expect, "refusal-raises", r)
              /\ Report(p.refusals[r].before = p.refusals[r].after, "refusal-unchanged", r)
        /\ PrintT(<<"EQDONE", i>>)
 
